@@ -1,7 +1,7 @@
 (* C05 — decoder totality on arbitrary bytes. Statements only. *)
 From Coq Require Import List NArith ZArith.
 From TarsV Require Import Base.Hex Codec.Wire Codec.Skip Codec.Prim Codec.GenCodec Codec.Corr Codec.GenProofs
-  Codec.RoundTrip Codec.RoundTripProofs Codec.TotalProofs Codec.RoundTripExamples Gen.Schemas.
+  Codec.RoundTrip Codec.RoundTripProofs Codec.TotalProofs Codec.RoundTripExamples Codec.CorrT Gen.Schemas.
 Import ListNotations.
 Open Scope N_scope.
 
